@@ -36,16 +36,34 @@ SPEC = dict(
     rule="Same generator as C02 (near-tie matrices: 0.25 grid + 0.01 jitters so that 8-bit rounding reorders "
          "near-equal positions, exact ties, count-derived, constant). For up to 6 prefixes k in {0, 1..3, #hits-1, "
          "#hits, random} a fresh scanner is advanced by k calls of next() and then asked for max(), under each forced "
-         "dispatcher arm. PROPFAIL: extracted check_c03 on the implementation's own per-position scores (None iff no "
-         "unconsumed position >= thr; otherwise an unconsumed position with its exact score, >= every unconsumed "
-         "qualifying score; no panic). DIFF: consumed prefix, position and score bits against the extracted binary32 "
-         "model. Non-trivial: as C02, distinct also by the prefix list.",
+         "dispatcher arm. PROPFAIL: the extracted checker check_c03, proved sound in Coq (C03_check_sound), on the "
+         "implementation's own per-position scores (None only if every qualifying position was consumed; otherwise an "
+         "unconsumed qualifying position with its exact score bits, >= every unconsumed qualifying score); any panic "
+         "on a configured input. DIFF: consumed prefix, position and score bits against the extracted binary32 "
+         "model. Non-trivial: as C02, distinct also by the prefix list. Theorems (5): C03_max_after_prefix (any k: no "
+         "panic, None iff nothing unconsumed qualifies, else an unconsumed qualifying position with its exact score "
+         "that dominates every unconsumed non-NaN score; the largest index among the maxima when no hit was buffered), "
+         "C03_max_none_iff, C03_max_is_maximum (k = 0), C03_max_block_independent (k = 0: the answer, position "
+         "included, is the same for all block sizes >= 1), C03_check_sound; plus C03_concrete_max: the same for the "
+         "extracted concrete model (every arm) with the order facts proved for Flocq's binary32 comparison and the "
+         "layout hypotheses discharged.",
     trusted_base=c02.COMMON_TRUSTED,
     assumptions=[
-        "conservative and scale_monotone (property C08): hypotheses of the max theorems",
-        "IEEE order facts about binary32 comparisons (le transitive, total on non-NaN, >, == derived from <=): "
-        "proved for Flocq's Bcompare in F32Order.v, hypotheses of the abstract section",
-        "the striped sequence was configured for the motif (wrap >= M-1), M >= 1, no NaN among the non-wildcard "
-        "matrix cells, block size >= 1, threshold not NaN for the order-dependent statements",
+        "conservative (property C08), for every bound t the scanner derives (the threshold and the score of each "
+        "successive best hit): a valid position whose f32 score is >= t has an 8-bit score >= scale(t). Hypothesis "
+        "of all max theorems; proved by group disc in exact arithmetic, false for binary32 on ill-conditioned "
+        "matrices (C08_ieee_refuted), re-checked by the correspondence run",
+        "scale_monotone: x >= t implies scale(t) <= scale(x) (hypothesis; group disc proves it in exact arithmetic, "
+        "C08_scale_monotone; not proved for binary32)",
+        "the comparisons >=, >, == of the score type form a total preorder on non-NaN values with > and == derived "
+        "from >=: hypotheses of the abstract theorems, proved for Flocq's binary32 Bcompare in coq/scan/F32Order.v "
+        "and discharged in C03_concrete_max",
+        "layout hypotheses (see C02): proved for the concrete model in ConcreteProofs.v for every well-formed input",
+        "input side conditions of the property: block size >= 1, motif not empty, sequence configured for the motif, "
+        "no NaN among the non-wildcard matrix cells; a NaN threshold makes every comparison false (None is returned, "
+        "consistent with the theorems: nothing qualifies)",
+        "block-size independence is stated for max() on a fresh scanner; after k > 0 calls of next() the consumed "
+        "set itself depends on the block size (yield order), so the statement is C03_max_after_prefix: the answer is "
+        "a maximum over what was not consumed",
     ],
 )
